@@ -112,6 +112,15 @@ type Step struct {
 	Defer  bool
 }
 
+// StructLit: a composite literal `&T{F1: e1, …}` / `T{…}` (key = the printed type, with the `&`)
+// rendered through a template; every listed field must be given exactly once, by name. %F1 … are the
+// rendered field values.
+type StructLit struct {
+	Fields map[string]string // field → translator type
+	Tmpl   string
+	Ty     string
+}
+
 // FailMode: the function's Lean type is `Except Ty _`; Panic is the value of a failed bounds test.
 type FailMode struct{ Ty, Panic string }
 
@@ -134,6 +143,10 @@ type FnSpec struct {
 	State   []StateVar        // mutable fields
 	Effects map[string]Effect // call key → effect
 	Steps   map[string]Step   // statement key → templated step
+	Structs map[string]StructLit
+	// IgnoreAssign: assignment targets (keys) whose statements are declared not modelled (time stamps);
+	// they are rendered as a Lean comment
+	IgnoreAssign []string
 	Fail    *FailMode         // nil: `Option _` when the body indexes, plain otherwise
 	// NilResult: a []byte result is rendered as `Option Bytes` (`return nil` = none)
 	NilResult bool
@@ -508,6 +521,9 @@ func (t *bodyTr) expr(e ast.Expr, sc bscope, want string) Val {
 	if v, ok := t.spec.Vals[key]; ok {
 		return v
 	}
+	if v, ok := t.structLit(e, sc); ok {
+		return v
+	}
 	switch x := e.(type) {
 	case *ast.Ident:
 		switch x.Name {
@@ -659,6 +675,45 @@ func (t *bodyTr) expr(e ast.Expr, sc bscope, want string) Val {
 		return Val{"(Go.slice " + b.Lean + " " + lo.Lean + " " + hi.Lean + ")", b.Ty}
 	}
 	return Val{t.unsupported("expression"), want}
+}
+
+// structLit renders `&T{…}` / `T{…}` listed in FnSpec.Structs
+func (t *bodyTr) structLit(e ast.Expr, sc bscope) (Val, bool) {
+	prefix := ""
+	if u, ok := e.(*ast.UnaryExpr); ok && u.Op == token.AND {
+		prefix, e = "&", u.X
+	}
+	cl, ok := e.(*ast.CompositeLit)
+	if !ok || cl.Type == nil {
+		return Val{}, false
+	}
+	sl, ok := t.spec.Structs[prefix+t.exprKey(cl.Type)]
+	if !ok {
+		return Val{}, false
+	}
+	out := sl.Tmpl
+	seen := map[string]bool{}
+	for _, el := range cl.Elts {
+		kv, ok := el.(*ast.KeyValueExpr)
+		if !ok {
+			return Val{t.unsupported("struct_positional_field"), sl.Ty}, true
+		}
+		name := t.exprKey(kv.Key)
+		ty, ok := sl.Fields[name]
+		if !ok || seen[name] {
+			return Val{t.unsupported("struct_field_" + LeanIdentPlain(name)), sl.Ty}, true
+		}
+		seen[name] = true
+		v := t.expr(kv.Value, sc, ty)
+		if v.Ty != ty {
+			v.Lean = t.unsupported("struct_field_type")
+		}
+		out = strings.ReplaceAll(out, "%"+name, v.Lean)
+	}
+	if len(seen) != len(sl.Fields) {
+		return Val{t.unsupported("struct_field_missing"), sl.Ty}, true
+	}
+	return Val{out, sl.Ty}, true
 }
 
 // LeanIdentPlain: ASCII letters/digits/underscore only, no quotes (for use inside unsupported_… names)
@@ -1358,6 +1413,14 @@ func (t *bodyTr) seq(stmts []ast.Stmt, sc bscope, ctx bctx, ind string) string {
 func (t *bodyTr) assign(x *ast.AssignStmt, sc bscope, ctx bctx, ind string, rest func(bscope, string) string) string {
 	bad := func(kind string) string {
 		return ind + "let _ := " + t.unsupported(kind) + "\n" + rest(sc, ind)
+	}
+	if x.Tok == token.ASSIGN && len(x.Lhs) == 1 {
+		k := t.exprKey(x.Lhs[0])
+		for _, ig := range t.spec.IgnoreAssign {
+			if ig == k {
+				return fmt.Sprintf("%s-- %s = … (declared not modelled)\n", ind, k) + rest(sc, ind)
+			}
+		}
 	}
 	// op-assign
 	if x.Tok != token.ASSIGN && x.Tok != token.DEFINE {
